@@ -700,8 +700,13 @@ class Sweep:
             self._record(cls, variant, target, optspec, res, "structure")
             self._renew()
         elif out == "accepted":
-            self.flush()
+            # the working tree is now transformed: take a fresh one and put it through the refusals
+            # whose written code has not been compared yet
+            pending = self.pending
             self._renew()
+            for (c, v, t, o) in pending:
+                attempt(self.tree, c, v, t, o, before="", snapfn=lambda tree: "")
+            self.pending = pending
         elif out != "skip":
             self.pending.append((cls, variant, target, optspec))
             if len(self.pending) >= self.code_every:
